@@ -337,6 +337,14 @@ DEFOP(pop) {
                 w.pending_corrupt = true;
             }
     }
+    if ((tweak % 31) == 0) {
+        // a pointer text cut right after the '~' of an escape (a lone tilde ends the token): not a JSON pointer, robustness clause only
+        for (MVal *k : op->kids)
+            if ((k->key == "path" || k->key == "from") && k->type == T_STRING) {
+                size_t t = k->str.rfind('~');
+                if (t != std::string::npos && ((tweak / 31) & 1 || k->key == "from")) { k->str.erase(t + 1); w.pending_corrupt = true; w.stats.probes["patch_pointer_ends_in_a_lone_tilde"]++; }
+            }
+    }
     if ((tweak % 17) == 0) {  // missing member
         size_t victim = (size_t)(tweak / 17) % op->kids.size();
         MVal *v = op->kids[victim];
